@@ -18,9 +18,11 @@ import (
 // view), run with the race detector.
 //
 // W writers commit batches; batch s of writer w carries the unique id (w,s):
-//   delete the 3 "generation" keys of (w,s-1), set the 3 generation keys of
-//   (w,s) (one of them as set-junk / delete / set inside the batch), set the
-//   writer's counter key and set the 2 keys that ALL writers share.
+//
+//	delete the 3 "generation" keys of (w,s-1), set the 3 generation keys of
+//	(w,s) (one of them as set-junk / delete / set inside the batch), set the
+//	writer's counter key and set the 2 keys that ALL writers share.
+//
 // Readers take iterator snapshots. Because every batch replaces one generation
 // by the next, each snapshot determines, per writer, which prefix of that
 // writer's batch sequence it reflects; the oracle is: it reflects exactly a
